@@ -282,3 +282,7 @@ def _loader(ck, fx, cg):
           "%d reader obligation(s) hold (every constant / global / instruction is loaded at its file position)" % len(rd) if not bad else
           "%d reader obligation(s) violated, first: %s — %s" % (len(bad), bad[0]["key"], bad[0]["detail"][:220]))
     ck.floor("R17.loader", "reader obligations evaluated", len(rd), 20)
+    from . import shared as _sh
+    okd, whered, whyd = _sh.bc_deserialize_plain(fx, A)
+    if ck.anchor("R17.loader", "BCSerializer::deserialize", True if okd is not None else None):
+        ck.ob("R17.loader", "the bytecode deserializer hands the reader untouched to Program::from_bytes", okd is True, whered, whyd)
